@@ -78,6 +78,9 @@ def _pkt_observe(r, seed):
     L, M = ["len", top], ["marshal", top]
     h = (len(r["ops"]) + 3 * len(parts) + seed) % 6
     obs = [watch + [L, M, L, M], [M, L, M, L] + watch, [L, L, M, M] + rev, rev + [M, M, L, L], [M] + watch + [L, M, L], [L] + rev + [M, L, M] + watch][h]
+    if r["fam"] in ("DL", "DC"):      # Read-style codecs: a short read between two full ones
+        k = max(i for i, o in enumerate(obs) if o == M)
+        obs = obs[:k] + [["peek", top]] + obs[k:]
     out = {"k": "build", "id": r["id"], "fam": "PK-" + r["fam"], "top": top, "ops": r["ops"], "observe": obs, "kids": parts, "trees": r["trees"]}
     return out
 
